@@ -2,7 +2,9 @@
 directory on PYTHONPATH (spawned worker children included) raises WorkerTerminatedError - or exits abruptly - when the named
 source line of the named function is about to execute, exactly once per process.
 
-PYVC_INJECT = "<file suffix>|<function name>|<substring of the source line>|<WTE|KILL>[|<skip pid>][|<phase>]"
+PYVC_INJECT = "<file suffix>|<function name>|<substring of the source line>|<WTE|KILL|SLEEP<seconds>>[|<skip pid>][|<phase>]"
+  SLEEP<seconds>: nothing is raised; the thread that reaches the line sleeps that long there, once per process (imitates the process being descheduled at
+  that point, so that a peer's action can be placed in the window)
   phase 'before' (default): the exception is raised when the line is reached, before it executes
   phase 'after':  raised when the NEXT line event of that frame fires (i.e. after the named statement completed)
 """
@@ -31,6 +33,10 @@ if _spec:
                 pass
         if _what == 'KILL':
             os._exit(137)
+        if _what.startswith('SLEEP'):
+            import time
+            time.sleep(float(_what[5:] or 0.5))
+            return
         from pyworkers.worker import WorkerTerminatedError
         raise WorkerTerminatedError()
 
